@@ -141,6 +141,9 @@ func run(r *kit.Run) {
 					case 3:
 						r.Fault("evidence.forged-signature")
 						bad := sign(h2, round+7) // signature over another round's payload
+						if c.Chance("reuse-first-signature", 1, 2) {
+							bad = sign(h1, round) // the first entry's signature listed again for another hash
+						}
 						plans = append(plans, planned{mk(round, uint32(idx), sign(h1, round), bad), byz.Addr, round, false, "forged signature"})
 					case 4:
 						r.Fault("evidence.wrong-signer-index")
